@@ -170,5 +170,8 @@ func allTypedSets(r *ev.Run) int {
 	n += typedSets(r, spell.Complex)
 	n += typedSets(r, spell.Pointers)
 	n += typedSets(r, spell.Int8)
+	n += typedSets(r, spell.AnyAlike)
+	n += typedSets(r, spell.StringAlike)
+	n += typedSets(r, spell.FloatAlike)
 	return n
 }
